@@ -110,6 +110,13 @@ def step (s : DSt) (line : String) : DSt × String :=
   | ["rm", n] => upd s env (p.removeVariable n)
   | ["mv", a, b] => upd s env (p.renameVariable a b)
   | ["view"] => (s, viewOf env p)
+  | "ecdf" :: inv :: kvs =>
+    match parseDict? kvs with
+    | some value =>
+      let inverse := inv == "1"
+      if inverse && !p.checkUnit value then (s, "E")
+      else (s, match p.evaluateCdf env inverse value with | some d => showDict d | none => "E")
+    | none => (s, "bad-op")
   | [op, m, u, x] =>
     if op == "nrm" || op == "unr" then
       match parseRatList? x with
@@ -126,13 +133,6 @@ def step (s : DSt) (line : String) : DSt × String :=
         (s, match r with | some y => showRows y | none => "E")
       | none => (s, "bad-op")
     else (s, "bad-op")
-  | "ecdf" :: inv :: kvs =>
-    match parseDict? kvs with
-    | some value =>
-      let inverse := inv == "1"
-      if inverse && !p.checkUnit value then (s, "E")
-      else (s, match p.evaluateCdf env inverse value with | some d => showDict d | none => "E")
-    | none => (s, "bad-op")
   | ["sdict", row] =>
     match parseRatList? row with
     | some row => (s, showDict (p.sampleDict row))
